@@ -91,7 +91,7 @@ class Ref:
             if len(digits.rstrip('0')) > 28:
                 self.wide_literal = True
             return F(t[1])
-        if k == 'bin':
+        if k in ('bin', 'aug', 'augidx'):
             a, b = self.ev(t[2]), self.ev(t[3])
             op = t[1]
             if op == '/':
@@ -140,6 +140,10 @@ def render(t):
     k = t[0]
     if k == 'lit':
         return t[1]
+    if k == 'aug':
+        return f'x = {render(t[2])}\nx {t[1]}= {render(t[3])}\nx'
+    if k == 'augidx':
+        return f'c = [{render(t[2])}]\nc[0] {t[1]}= {render(t[3])}\nc[0]'
     if k == 'bin' or k == 'cmp':
         return f'({render(t[2])} {t[1]} {render(t[3])})'
     if k == 'neg':
@@ -154,11 +158,11 @@ def render(t):
 
 
 def root_label(t):
-    return {'lit': 'literal', 'bin': 'op:' + str(t[1]), 'cmp': 'cmp', 'neg': 'op:neg', 'fn': 'fn:' + str(t[1])}[t[0]]
+    return {'lit': 'literal', 'aug': 'op:' + str(t[1]) + '=', 'augidx': 'op:[k]' + str(t[1]) + '=', 'bin': 'op:' + str(t[1]), 'cmp': 'cmp', 'neg': 'op:neg', 'fn': 'fn:' + str(t[1])}[t[0]]
 
 
 def from_json(t):
-    return tuple(from_json(x) if isinstance(x, list) and x and isinstance(x[0], str) and x[0] in ('lit', 'bin', 'cmp', 'neg', 'fn')
+    return tuple(from_json(x) if isinstance(x, list) and x and isinstance(x[0], str) and x[0] in ('lit', 'bin', 'cmp', 'neg', 'fn', 'aug', 'augidx')
                  else ([from_json(y) for y in x] if isinstance(x, list) else x) for x in t)
 
 
@@ -216,6 +220,9 @@ SEEDS = [
     ('fn', 'int', ('neg', ('lit', '1.9'))), ('fn', 'sum', [('lit', '0.1')] * 10),
     ('bin', '+', ('fn', 'floor', ('lit', '1.5')), ('bin', '/', ('lit', '2'), ('lit', '3'))),
     ('bin', '+', ('fn', 'ceil', ('lit', '1.5')), ('bin', '/', ('neg', ('lit', '2')), ('lit', '3'))),
+    ('aug', '/', ('lit', '2'), ('lit', '3')), ('aug', '/', ('lit', '5'), ('lit', '6')), ('augidx', '/', ('lit', '2'), ('lit', '3')),
+    ('aug', '*', ('lit', '1.1'), ('lit', '3')), ('fn', 'max', [('bin', '+', ('lit', '0.1'), ('lit', '0.2')), ('lit', '0.30000000000000000001')]),
+    ('fn', 'max', [('lit', '9007199254740992'), ('lit', '9007199254740993')]), ('fn', 'min', [('lit', '9007199254740993'), ('lit', '9007199254740992')]),
 ]
 
 
@@ -268,6 +275,13 @@ def trees(draw):
         return ('bin', pick('+-*/'), g(d - 1), g(d - 1))
 
     t = g(n(6))
+    if n(8) == 0:
+        return (pick(['aug', 'augidx']), pick('+-*/'), g(n(3)), g(n(3)))
+    if n(6) == 0:
+        # min / max over values that agree in their first ~17 digits (exact rational order, not binary doubles)
+        base = lit()[1]
+        near = base + pick(['1', '0000000001', '9']) if '.' in base else base + '.' + pick(['0000000000000000001', '5'])
+        return ('fn', pick(['min', 'max']), [('lit', base), ('lit', near)] if n(2) else [('lit', near), ('lit', base)])
     if n(4) == 0:
         t = ('cmp', pick(['<', '<=', '==', '!=', '>', '>=']), t, g(n(3)))
     return t
